@@ -74,6 +74,10 @@ func logging(rep *kit.Report, root string) {
 		{"except", func(d string) (string, []*logFile) {
 			return fmt.Sprintf("\tlog / %s/e.log %s {\n\t\texcept /a/skip\n\t}\n", d, format), []*logFile{{path: d + "/e.log", scope: "/", except: []string{"/a/skip"}}}
 		}},
+		// an exception (and a scope) written as a directory, with the trailing slash: /a/skip and /a/skipper are not under it
+		{"except-directory", func(d string) (string, []*logFile) {
+			return fmt.Sprintf("\tlog /a %s/ed.log %s {\n\t\texcept /a/skip/\n\t}\n\tlog /b/ %s/sd.log %s\n", d, format, d, format), []*logFile{{path: d + "/ed.log", scope: "/a", except: []string{"/a/skip/"}}, {path: d + "/sd.log", scope: "/b/"}}
+		}},
 		{"except-on-first-of-two", func(d string) (string, []*logFile) {
 			return fmt.Sprintf("\tlog / %s/e1.log %s {\n\t\texcept /a/skip\n\t}\n\tlog / %s/e2.log %s\n", d, format, d, format), []*logFile{{path: d + "/e1.log", scope: "/", except: []string{"/a/skip"}}, {path: d + "/e2.log", scope: "/"}}
 		}},
@@ -106,7 +110,7 @@ func logging(rep *kit.Report, root string) {
 		// the body handed over through the writer's optional methods (io.Copy from a plain reader, io.WriteString), which commit
 		// 200 like a first Write; then an error status, or after an informational header
 		"copy:50xc;ret:500:boom", "status:103;copy:22xc;ret:0", "wstr:x;ret:404", "copy:" + big + ";ret:0"}
-	paths := []string{"/a/x", "/a/skip/y", "/b/z", "/c", "/rw", "/teapot", "/int/q", "/priv/p", "/old", "/A/X", "/a/../b/w", "/plain.txt", "/missing"}
+	paths := []string{"/a/x", "/a/skip/y", "/a/skip", "/a/skipper", "/b", "/b/z", "/c", "/rw", "/teapot", "/int/q", "/priv/p", "/old", "/A/X", "/a/../b/w", "/plain.txt", "/missing"}
 	type job struct {
 		lc  logCfg
 		sub []int
@@ -220,7 +224,7 @@ func logging(rep *kit.Report, root string) {
 		}
 		rep.ClassN(local)
 		if ji == 7 {
-			rep.Sample(map[string]interface{}{"casketfile": cf, "requests": "14 inner behaviours x 13 paths x GET/POST x Accept-Encoding"})
+			rep.Sample(map[string]interface{}{"casketfile": cf, "requests": "14 inner behaviours x 16 paths x GET/POST x Accept-Encoding"})
 		}
 		return true
 	})
@@ -551,7 +555,7 @@ func caseSensitive(rep *kit.Report, root string) {
 
 func main() {
 	rep := kit.NewReport("C20", "exploration",
-		"logging: 7 log layouts (one, two same-scope, two same-scope around another scope, disjoint scopes, except, except on the first of two, nested scopes) x every subset of size <=2 of 11 wrapping directives x 22 inner behaviours x 13 paths x GET/POST x Accept-Encoding, new lines of every log file counted after every request and {status}/{size} compared with what the strict writer saw; rotation: two sites sharing one rolling file under 4 spellings of its name, every line counted over the file and its backups, lines after a rotation looked for in the current file; placeholders: every format of 3 atoms over 20 atoms (vocabulary, header/cookie/query/env lookups, unknown, escaped braces, text) x 9x9 request-supplied values containing placeholder syntax, against a single-pass reference; reloads: 8 layouts writing to a file, stdout, stderr or the default stream (alone, two logs on one stream, next to an errors log on the same stream) x every sequence of 4 steps over {request, reload, reload refused at set-up, reload refused at start-up} followed by a request, every request's line counted at the destination; distinct_nontrivial = outcome classes")
+		"logging: 8 log layouts (one, two same-scope, two same-scope around another scope, disjoint scopes, except, except and scope written as directories, except on the first of two, nested scopes) x every subset of size <=2 of 11 wrapping directives x 22 inner behaviours x 13 paths x GET/POST x Accept-Encoding, new lines of every log file counted after every request and {status}/{size} compared with what the strict writer saw; rotation: two sites sharing one rolling file under 4 spellings of its name, every line counted over the file and its backups, lines after a rotation looked for in the current file; placeholders: every format of 3 atoms over 20 atoms (vocabulary, header/cookie/query/env lookups, unknown, escaped braces, text) x 9x9 request-supplied values containing placeholder syntax, against a single-pass reference; reloads: 8 layouts writing to a file, stdout, stderr or the default stream (alone, two logs on one stream, next to an errors log on the same stream) x every sequence of 4 steps over {request, reload, reload refused at set-up, reload refused at start-up} followed by a request, every request's line counted at the destination; distinct_nontrivial = outcome classes")
 	kit.Init()
 	kit.RegisterProbe()
 	kit.Log.Off.Store(true)
